@@ -358,6 +358,10 @@ var c01StmtAlphabet = []string{
 	"lst2 = [v, w]; mp2 = {1: v}; func() { for e = lst2 { println(e) }; for kv = mp2 { println(kv.key, kv.value) }; println(len(lst2), first(lst2), rest(lst2)) }()",
 	"func(n) { m3 = {\"a\": n}; c3 = catch(n); a3 = [0]; a3[0] = n; m3.b = n; n = n + 1; println(m3, c3.value, a3) }(v)", "nl = nil; func() { println(nl == nil, !nl, nl) }()", "st = \"xy\"; func() { for ch = st { print(ch, \"-\") }; println(st[0], st[1:], st + st, st * 2) }()",
 	"println(v, w)", "println(p)", "error(\"boom\")", "x = v; v = 50; w = x", "del(w)", "w = [v, p][1]", "t = v; func up() { t = t + 1 }; up(); w = t",
+	// containers whose representation is large while their length is back under the small/large threshold
+	"mm = {1: 1, 2: 2, 3: 3, 4: 4, 5: 5}; del(mm[5]); mb = mm; mb[1] = v; println(mm, mb)",
+	"md = {1: 1, 1: 2, 1: 3, 1: 4, 1: 5}; me = md; me[1] = v; del(me[1]); println(md, me)",
+	"ma = [1, 2, 3, 4, 5, 6, 7, 8, 9, 10][0:2]; mc = ma; mc[0] = v; println(ma, mc)",
 }
 
 func c01Stmt(c *core.Ctx, do func(fam string, inputs ...string) bool) bool {
